@@ -91,7 +91,10 @@ class Gen:
         nodes = []
         vars_ = {}
         # custom properties: text-colour vars (each used by at most one rule unless f_known) and background vars
-        vnames = [f"--c{k}" for k in range(self.nvars)] + ([f"--bg{k}" for k in range(2)] if self.use_bgvars else [])
+        # (half of the sheets: hyphenated names that extend one another, --c0 / --c0-soft / --c2 / --c2-soft ...: a name is the
+        #  whole identifier, not its first word)
+        hyph = rnd.random() < 0.5
+        vnames = [(f"--c{k - 1}-soft" if hyph and k % 2 else f"--c{k}") for k in range(self.nvars)] + ([f"--bg{k}" for k in range(2)] if self.use_bgvars else [])
         bgvals = {}
         defs = []
         for k, nme in enumerate(vnames):
@@ -267,7 +270,8 @@ class Gen:
                                       "outline-color: #abcdef", "padding: 0 0 0 1e1px", "font-family: \"caf\\e9\", serif",
                                       "transform: translate( -50% , -50% )", "unicode-range: U+0025-00FF"]))
         return {"t": "rule", "sel": sel, "text": textexpr, "bg": bgexpr, "extras": extras,
-                "imp": rnd.random() < 0.15, "dup": rnd.random() < 0.15, "comment": rnd.random() < 0.3}
+                "imp": rnd.random() < 0.15, "dup": rnd.random() < 0.15, "comment": rnd.random() < 0.3,
+                "dupbg": bgexpr is not None and rnd.random() < 0.2}
 
     def sprinkle(self, nodes):
         rnd = self.rnd
@@ -326,7 +330,12 @@ def render(nodes, rnd, indent=""):
                     decls.insert(0, "color: #010203" + imp)      # an earlier declaration that the last one overrides
                 decls.insert(rnd.randrange(len(decls) + 1) if not n["dup"] else len(decls), f"color: {expr_css(n['text'])}{imp}")
             if n["bg"] is not None:
-                decls.insert(rnd.randrange(len(decls) + 1), f"background-color: {expr_css(n['bg'])}")
+                pos_bg = rnd.randrange(len(decls) + 1)
+                decls.insert(pos_bg, f"background-color: {expr_css(n['bg'])}")
+                if n.get("dupbg"):
+                    # an earlier background-color declaration of the opposite polarity that the last one overrides
+                    other = "#101010" if refs.wcag_lum(refs.css_read_opaque(expr_css(n["bg"])) or (255, 255, 255)) > 0.3 else "#fafafa"
+                    decls.insert(rnd.randrange(pos_bg + 1), f"background-color: {other}")
             if n["comment"]:
                 decls.insert(rnd.randrange(len(decls) + 1), "/* note: keep; this } comment */")
             body = []
@@ -467,8 +476,28 @@ def parse_stdout(text):
     return res
 
 
-def run_cli(root_path, args, cwd):
+def run_cli_child(root_path, args, cwd, env_extra):
+    """the real command in a child interpreter with a given environment (e.g. the C locale without UTF-8 mode: the process's
+    preferred encoding is then ASCII); console output is forced to UTF-8 so that only FILE handling is under test"""
+    import subprocess
+    env = dict(os.environ)
+    env.update({"PYTHONPATH": os.path.join(vlib.REPO, "src"), "PYTHONIOENCODING": "utf-8:surrogateescape",
+                "PYTHONDONTWRITEBYTECODE": "1"})
+    env.update(env_extra)
+    p = subprocess.run([sys.executable, "-c", "import sys; from cm_colors.cli.main import main; sys.argv[0] = 'cm-colors'; main()", root_path] + list(args),
+                       cwd=cwd, env=env, capture_output=True, timeout=600)
+    out = p.stdout.decode("utf-8", "replace")
+    err = p.stderr.decode("utf-8", "replace")
+    exc = ""
+    if p.returncode not in (0, 1, 2) or "Traceback (most recent call last)" in err and "Error processing" not in err:
+        exc = "child-exit-%d" % p.returncode
+    return {"exit": p.returncode, "stdout": out, "stderr": err, "exception": exc}
+
+
+def run_cli(root_path, args, cwd, env_extra=None):
     """the real command, in-process (click's CliRunner) with cwd as working directory"""
+    if env_extra:
+        return run_cli_child(root_path, args, cwd, env_extra)
     vlib.use_repo()
     from click.testing import CliRunner
     from cm_colors.cli.main import main as cli_main
